@@ -137,6 +137,7 @@ structure Plan where
 
 def genFacets (isInt : Bool) : M SFacets := do
   let asChild ← chance 2 3
+  let plus ← chance 1 6
   if isInt then
     let lo ← below 20
     let span ← below 30
@@ -144,7 +145,7 @@ def genFacets (isInt : Bool) : M SFacets := do
     let ma ← if (← chance 1 2) then pure (some (Int.ofNat (lo + span) - 5)) else pure none
     let me ← if mi.isNone && (← chance 1 3) then pure (some (Int.ofNat lo - 6)) else pure none
     let mx ← if ma.isNone && (← chance 1 3) then pure (some (Int.ofNat (lo + span))) else pure none
-    pure { minInclusive := mi, maxInclusive := ma, minExclusive := me, maxExclusive := mx, asChild := asChild }
+    pure { minInclusive := mi, maxInclusive := ma, minExclusive := me, maxExclusive := mx, asChild := asChild, plus := plus }
   else
     let r ← below 4
     let len ← if r == 0 then pure (some (← below 5)) else pure none
@@ -157,7 +158,7 @@ def genFacets (isInt : Bool) : M SFacets := do
           es := es ++ [styled (← pick words) (← below 6)]
         pure es
       else pure []
-    pure { length := len, minLength := minl, maxLength := maxl, enumeration := enums, asChild := asChild }
+    pure { length := len, minLength := minl, maxLength := maxl, enumeration := enums, asChild := asChild, plus := plus }
 
 /-- a type for a member of a type of rank `rank` in namespace `ns`; `repeating` lifts the rank limit -/
 def genMemberType (p : Plan) (ns rank : Nat) (repeating : Bool) (simpleOnly : Bool) : M TypeRef := do
